@@ -15,7 +15,7 @@ RULES = {
     'C05.R3': 'node functions above a cached node never change silently: internal writers of .aff reach terminals only, or reset the state of every node they rewrite',
     'C05.R4': 'only a child with feasible state is forwarded past a skipped decision',
 }
-FLOORS = {'C05.R7': 1, 'C05.R6': 5, 'C05.R5': 8, 'C05.R1': 8, 'C05.R2': 3, 'C05.R3': 6, 'C05.R4': 1}
+FLOORS = {'C05.R7': 1, 'C05.R6': 5, 'C05.R5': 9, 'C05.R1': 8, 'C05.R2': 3, 'C05.R3': 6, 'C05.R4': 1}
 EXPLANATION = 'No unchecked point and no unsupported verdict can enter a cache, and no operation invalidates a cache without clearing it.'
 DOES_NOT_DECIDE = 'the numeric margin of contains (1e-8) against accumulated rounding of later compositions'
 
@@ -227,7 +227,16 @@ def r3(ctx):
     # internal callers reach terminals only
     for (cb, bb, t) in F.callers_of(lambda c: c.self_base == 'AffTree' and c.name in ('apply_func_at_node', 'update_node')):
         if cb.qname in ('AffTree::replace_node',):
-            ctx.ok('C05.R3', '%s#call:%s' % (cb.qname, Callee(t['func']).name), 'caution API replacing the root value; documented', t['span'])
+            # caution API: only the root (whose region is the whole space whatever its function) is rewritten in place; every other node
+            # is removed with its subtree and re-added as a fresh Indeterminate node
+            Rr = Resolver(cb)
+            node = Rr.call_args(bb)[1]
+            rooted = any(l[0] == 'true' and is_call(l[1], 'Tree::is_root') and s(l[1][2][1]) == s(node) for l in literals(cb, Rr, bb))
+            site = '%s#call:%s' % (cb.qname, Callee(t['func']).name)
+            if rooted:
+                ctx.ok('C05.R3', site, 'caution API: in-place rewrite only under tree.is_root(node) == true; documented', t['span'])
+            else:
+                ctx.bad('C05.R3', site, 'replace_node rewrites a node in place (keeping its cached state and its descendants\' witnesses) without having tested that it is the root', t['span'])
             continue
         R = Resolver(cb)
         args = R.call_args(bb)
